@@ -241,4 +241,301 @@ theorem stage_frac (m : Mode) (hm : m = .zero ∨ m = .digit) (r1 : Bytes) :
       obtain ⟨rfl, rfl⟩ := h
       exact ⟨rfl, Or.inl ⟨rfl, Or.inr ⟨c, r, rfl, hc⟩⟩⟩
 
+
+theorem stops_of_noDigit_exp (m : Mode) (hm : m = .expZero ∨ m = .exp) (r : Bytes) (h : NoDigitHead r) : Stops m r := by
+  rcases h with h | ⟨x, t, h, hx⟩
+  · exact Or.inl h
+  · refine Or.inr ⟨x, t, h, ?_⟩
+    rcases hm with hm | hm <;> subst hm
+    · rw [(modeStep_facts x).2.2.2.2.2.2.1]; simp [hx]
+    · rw [(modeStep_facts x).2.2.2.2.2.2.2.1]; simp [hx]
+
+/-- stage 3: the optional exponent, from `zero`, `digit` or `frac` mode -/
+theorem stage_exp (m : Mode) (hm : m = .zero ∨ m = .digit ∨ m = .frac) (r2 : Bytes) :
+    (∀ ep r3, Spec.pExp r2 = some (ep, r3) → r2 = ep ++ r3 ∧
+      ((ep = [] ∧ (r2 = [] ∨ ∃ x t, r2 = x :: t ∧ ¬ (x = 101 ∨ x = 69))) ∨ (ScansM m ep .exp ∧ NoDigitHead r3))) ∧
+    (Spec.pExp r2 = none → ∃ lit r mf, ScansM m lit mf ∧ r2 = lit ++ r ∧ (mf = .expSign ∨ mf = .expZero) ∧ Stops mf r) := by
+  cases r2 with
+  | nil =>
+    refine ⟨fun ep r3 h => ?_, (fun h => nomatch h)⟩
+    simp only [Spec.pExp, Option.some.injEq, Prod.mk.injEq] at h
+    obtain ⟨rfl, rfl⟩ := h
+    exact ⟨rfl, Or.inl ⟨rfl, Or.inl rfl⟩⟩
+  | cons e r =>
+    simp only [Spec.pExp]
+    by_cases he : (e = 101 || e = 69) = true
+    · simp only [he, ↓reduceIte]
+      have hE : modeStep m e = some .expSign := by
+        have hf := modeStep_facts e
+        have hne : e ≠ 46 := by
+          intro h; subst h; revert he; decide
+        have hnd : Spec.isDigit e = false := by
+          simp only [Bool.or_eq_true, decide_eq_true_eq] at he
+          rcases he with h | h <;> subst h <;> decide
+        rcases hm with h | h | h <;> subst h
+        · rw [hf.2.1]; simp [hne, he]
+        · rw [hf.2.2.1]; simp [hnd, hne, he]
+        · rw [hf.2.2.2.2.1]; simp [hnd, he]
+      -- the optional sign
+      have hsign : ∃ ms, ScansM .expSign (Spec.pExpSign r).1 ms ∧ r = (Spec.pExpSign r).1 ++ (Spec.pExpSign r).2 ∧
+          ((ms = .expSign ∧ (Spec.pExpSign r).1 = [] ∧ (r = [] ∨ ∃ x t, r = x :: t ∧ ¬ (x = 43 ∨ x = 45))) ∨ ms = .expZero) := by
+        cases r with
+        | nil => exact ⟨.expSign, ScansM.nil _, rfl, Or.inl ⟨rfl, rfl, Or.inl rfl⟩⟩
+        | cons sg r' =>
+          simp only [Spec.pExpSign]
+          by_cases hs : (sg = 43 || sg = 45) = true
+          · simp only [hs, ↓reduceIte]
+            refine ⟨.expZero, ScansM.one ?_, rfl, Or.inr rfl⟩
+            rw [(modeStep_facts sg).2.2.2.2.2.1]; simp [hs]
+          · simp only [hs, Bool.false_eq_true, ↓reduceIte]
+            refine ⟨.expSign, ScansM.nil _, rfl, Or.inl ⟨rfl, trivial, Or.inr ⟨sg, r', rfl, ?_⟩⟩⟩
+            simpa using hs
+      obtain ⟨ms, hsc, hsplit, hms⟩ := hsign
+      have htd := td_spec (Spec.pExpSign r).2
+      by_cases hemp : (Spec.takeDigits (Spec.pExpSign r).2).1.isEmpty = true
+      · -- no exponent digit: the specification rejects, the automaton stops in expSign/expZero
+        simp only [hemp, ↓reduceIte]
+        refine ⟨(fun _ _ h => nomatch h), fun _ => ?_⟩
+        have hnd := noDigitHead_of_td_empty _ hemp
+        refine ⟨e :: (Spec.pExpSign r).1, (Spec.pExpSign r).2, ms, ?_, by simp only [List.cons_append]; rw [← hsplit], ?_, ?_⟩
+        · exact (ScansM.one hE).trans hsc
+        · rcases hms with ⟨h, _, _⟩ | h
+          · exact Or.inl h
+          · exact Or.inr h
+        · rcases hms with ⟨h, hnil, hr⟩ | h
+          · -- no sign: the next byte is neither a sign nor a digit
+            subst h
+            have hrest : (Spec.pExpSign r).2 = r := by rw [hnil, List.nil_append] at hsplit; exact hsplit.symm
+            rw [hrest] at hnd ⊢
+            rcases hr with hr | ⟨x, t, hr, hx⟩
+            · exact Or.inl hr
+            · refine Or.inr ⟨x, t, hr, ?_⟩
+              have hxd : Spec.isDigit x = false := by
+                rcases hnd with h0 | ⟨y, t', hy, hyd⟩
+                · rw [hr] at h0; cases h0
+                · rw [hr] at hy; cases hy; exact hyd
+              rw [(modeStep_facts x).2.2.2.2.2.1]
+              have : (x = 43 || x = 45) = false := by simpa using hx
+              simp [this, hxd]
+          · subst h
+            exact stops_of_noDigit_exp .expZero (Or.inl rfl) _ hnd
+      · simp only [hemp, Bool.false_eq_true, ↓reduceIte]
+        refine ⟨fun ep r3 h => ?_, (fun h => nomatch h)⟩
+        simp only [Option.some.injEq, Prod.mk.injEq] at h
+        obtain ⟨rfl, rfl⟩ := h
+        refine ⟨?_, Or.inr ⟨?_, htd.2.2⟩⟩
+        · simp only [List.cons_append, List.append_assoc]
+          rw [← htd.1, ← hsplit]
+        · -- e, optional sign, first digit, remaining digits
+          cases hds : (Spec.takeDigits (Spec.pExpSign r).2).1 with
+          | nil => rw [hds] at hemp; simp at hemp
+          | cons d ds =>
+            have hdig : ∀ x ∈ d :: ds, Spec.isDigit x = true := by rw [← hds]; exact htd.2.1
+            have hd := hdig d List.mem_cons_self
+            have hfirst : modeStep ms d = some .exp := by
+              rcases hms with ⟨h, _, _⟩ | h <;> subst h
+              · rw [(modeStep_facts d).2.2.2.2.2.1]
+                have : (d = 43 || d = 45) = false := by
+                  cases hx : (d = 43 || d = 45)
+                  · rfl
+                  · simp only [Bool.or_eq_true, decide_eq_true_eq] at hx
+                    rcases hx with h | h <;> subst h <;> revert hd <;> decide
+                simp [this, hd]
+              · rw [(modeStep_facts d).2.2.2.2.2.2.1]; simp [hd]
+            have := (((ScansM.one hE).trans hsc).trans (ScansM.one hfirst)).trans
+              (ScansM.digits .exp (fun x hx => (loops x hx).2.2) ds (fun x hx => hdig x (List.mem_cons_of_mem _ hx)))
+            simpa [List.append_assoc] using this
+    · simp only [he, Bool.false_eq_true, ↓reduceIte]
+      refine ⟨fun ep r3 h => ?_, (fun h => nomatch h)⟩
+      simp only [Option.some.injEq, Prod.mk.injEq] at h
+      obtain ⟨rfl, rfl⟩ := h
+      refine ⟨rfl, Or.inl ⟨rfl, Or.inr ⟨e, r, rfl, ?_⟩⟩⟩
+      simpa using he
+
+
+/-- the head of `r`, if any, satisfies `P` -/
+def HeadNot (P : UInt8 → Prop) (r : Bytes) : Prop := r = [] ∨ ∃ x t, r = x :: t ∧ ¬ P x
+
+theorem stops_final (m : Mode) (r : Bytes)
+    (h : (m = .zero ∧ HeadNot (· = 46) r ∧ HeadNot (fun x => x = 101 ∨ x = 69) r) ∨
+         (m = .digit ∧ NoDigitHead r ∧ HeadNot (· = 46) r ∧ HeadNot (fun x => x = 101 ∨ x = 69) r) ∨
+         (m = .frac ∧ NoDigitHead r ∧ HeadNot (fun x => x = 101 ∨ x = 69) r) ∨
+         (m = .exp ∧ NoDigitHead r)) : Stops m r := by
+  cases r with
+  | nil => exact Or.inl rfl
+  | cons x t =>
+    refine Or.inr ⟨x, t, rfl, ?_⟩
+    have hf := modeStep_facts x
+    have hd : ∀ {P : UInt8 → Prop}, HeadNot P (x :: t) → ¬ P x := by
+      intro P h
+      rcases h with h | ⟨y, t', hy, hp⟩
+      · cases h
+      · cases hy; exact hp
+    have hnd : NoDigitHead (x :: t) → Spec.isDigit x = false := by
+      intro h
+      rcases h with h | ⟨y, t', hy, hp⟩
+      · cases h
+      · cases hy; exact hp
+    rcases h with ⟨rfl, h1, h2⟩ | ⟨rfl, h0, h1, h2⟩ | ⟨rfl, h0, h2⟩ | ⟨rfl, h0⟩
+    · rw [hf.2.1]
+      have a := hd h1; have b := hd h2
+      have : (x = 101 || x = 69) = false := by simpa using b
+      simp [a, this]
+    · rw [hf.2.2.1]
+      have a := hd h1; have b := hd h2
+      have : (x = 101 || x = 69) = false := by simpa using b
+      simp [hnd h0, a, this]
+    · rw [hf.2.2.2.2.1]
+      have b := hd h2
+      have : (x = 101 || x = 69) = false := by simpa using b
+      simp [hnd h0, this]
+    · rw [hf.2.2.2.2.2.2.2.1]; simp [hnd h0]
+
+/-- an unsigned number literal, from `value`/`comma` (input starts with a digit) or `neg` mode -/
+theorem scan_unsigned (m : Mode) (bs : Bytes)
+    (hm : ((m = .value ∨ m = .comma) ∧ ∃ d t, bs = d :: t ∧ Spec.isDigit d = true) ∨ m = .neg) :
+    (∀ lit rest, Spec.pUnsigned bs = some (lit, rest) →
+      bs = lit ++ rest ∧ ∃ mf, isFinalNum mf = true ∧ ScansM m lit mf ∧ Stops mf rest) ∧
+    (Spec.pUnsigned bs = none → ∃ lit r mf, ScansM m lit mf ∧ bs = lit ++ r ∧
+      (mf = .neg ∨ mf = .dot ∨ mf = .expSign ∨ mf = .expZero) ∧ Stops mf r) := by
+  have hm3 : m = .value ∨ m = .comma ∨ m = .neg := by
+    rcases hm with ⟨h | h, _⟩ | h
+    · exact Or.inl h
+    · exact Or.inr (Or.inl h)
+    · exact Or.inr (Or.inr h)
+  obtain ⟨hi1, hi2⟩ := stage_int m hm3 bs
+  unfold Spec.pUnsigned
+  cases hpi : Spec.pInt bs with
+  | none =>
+    simp only
+    refine ⟨(fun _ _ h => nomatch h), fun _ => ?_⟩
+    -- only possible from `neg` mode
+    rcases hm with ⟨_, d, t, hbs, hd⟩ | hneg
+    · exfalso
+      subst hbs
+      simp only [Spec.pInt] at hpi
+      by_cases h0 : d = 48
+      · simp [h0] at hpi
+      · have : Spec.isDigit19 d = true := by
+          unfold Spec.isDigit at hd; unfold Spec.isDigit19
+          simp only [Bool.and_eq_true, decide_eq_true_eq] at hd ⊢
+          refine ⟨?_, hd.2⟩
+          have h1 := hd.1
+          rw [UInt8.le_iff_toNat_le] at h1 ⊢
+          have : d.toNat ≠ 48 := fun h => h0 (UInt8.toNat_inj.mp (by simpa using h))
+          simp at h1 ⊢; omega
+        simp [h0, this] at hpi
+    · subst hneg
+      exact ⟨[], bs, .neg, ScansM.nil _, rfl, Or.inl rfl, hi2 hpi rfl⟩
+  | some p1 =>
+    obtain ⟨ip, r1⟩ := p1
+    simp only
+    obtain ⟨hbs1, hint⟩ := hi1 ip r1 hpi
+    -- mode after the integer part
+    obtain ⟨m1, hm1, hsc1, hnd1⟩ : ∃ m1, (m1 = .zero ∨ m1 = .digit) ∧ ScansM m ip m1 ∧ (m1 = .digit → NoDigitHead r1) := by
+      rcases hint with h | ⟨h, hn⟩
+      · exact ⟨.zero, Or.inl rfl, h, fun h => nomatch h⟩
+      · exact ⟨.digit, Or.inr rfl, h, fun _ => hn⟩
+    obtain ⟨hf1, hf2⟩ := stage_frac m1 hm1 r1
+    cases hpf : Spec.pFrac r1 with
+    | none =>
+      simp only
+      refine ⟨(fun _ _ h => nomatch h), fun _ => ?_⟩
+      obtain ⟨r, hdot, hr1, hst⟩ := hf2 hpf
+      exact ⟨ip ++ [46], r, .dot, hsc1.trans hdot, by rw [hbs1, hr1]; simp, Or.inr (Or.inl rfl), hst⟩
+    | some p2 =>
+      obtain ⟨fp, r2⟩ := p2
+      simp only
+      obtain ⟨hr1, hfrac⟩ := hf1 fp r2 hpf
+      -- mode after the optional fraction
+      obtain ⟨m2, hm2, hsc2, hinfo2⟩ : ∃ m2, (m2 = .zero ∨ m2 = .digit ∨ m2 = .frac) ∧ ScansM m (ip ++ fp) m2 ∧
+          ((m2 = .zero ∧ HeadNot (· = 46) r2) ∨ (m2 = .digit ∧ NoDigitHead r2 ∧ HeadNot (· = 46) r2) ∨
+           (m2 = .frac ∧ NoDigitHead r2)) := by
+        rcases hfrac with ⟨hfp, hhead⟩ | ⟨hscf, hndf⟩
+        · subst hfp
+          have hr : r2 = r1 := by simpa using hr1.symm
+          subst hr
+          have hh : HeadNot (· = 46) r2 := by
+            rcases hhead with h | ⟨x, t, h, hx⟩
+            · exact Or.inl h
+            · exact Or.inr ⟨x, t, h, hx⟩
+          rcases hm1 with h | h <;> subst h
+          · exact ⟨.zero, Or.inl rfl, by simpa using hsc1, Or.inl ⟨rfl, hh⟩⟩
+          · exact ⟨.digit, Or.inr (Or.inl rfl), by simpa using hsc1, Or.inr (Or.inl ⟨rfl, hnd1 rfl, hh⟩)⟩
+        · exact ⟨.frac, Or.inr (Or.inr rfl), hsc1.trans hscf, Or.inr (Or.inr ⟨rfl, hndf⟩)⟩
+      obtain ⟨he1, he2⟩ := stage_exp m2 hm2 r2
+      cases hpe : Spec.pExp r2 with
+      | none =>
+        simp only
+        refine ⟨(fun _ _ h => nomatch h), fun _ => ?_⟩
+        obtain ⟨lit, r, mf, hsce, hr2, hmf, hst⟩ := he2 hpe
+        refine ⟨ip ++ fp ++ lit, r, mf, hsc2.trans hsce, by rw [hbs1, hr1, hr2]; simp, ?_, hst⟩
+        rcases hmf with h | h
+        · exact Or.inr (Or.inr (Or.inl h))
+        · exact Or.inr (Or.inr (Or.inr h))
+      | some p3 =>
+        obtain ⟨ep, r3⟩ := p3
+        simp only
+        obtain ⟨hr2, hexp⟩ := he1 ep r3 hpe
+        refine ⟨fun lit rest h => ?_, (fun h => nomatch h)⟩
+        simp only [Option.some.injEq, Prod.mk.injEq] at h
+        obtain ⟨rfl, rfl⟩ := h
+        refine ⟨by rw [hbs1, hr1, hr2]; simp, ?_⟩
+        rcases hexp with ⟨hep, hhead⟩ | ⟨hsce, hnde⟩
+        · subst hep
+          have hr : r3 = r2 := by simpa using hr2.symm
+          subst hr
+          have hh : HeadNot (fun x => x = 101 ∨ x = 69) r3 := by
+            rcases hhead with h | ⟨x, t, h, hx⟩
+            · exact Or.inl h
+            · exact Or.inr ⟨x, t, h, hx⟩
+          refine ⟨m2, ?_, by simpa using hsc2, ?_⟩
+          · rcases hm2 with h | h | h <;> simp [isFinalNum, h]
+          · apply stops_final
+            rcases hinfo2 with ⟨h, h1⟩ | ⟨h, h0, h1⟩ | ⟨h, h0⟩
+            · exact Or.inl ⟨h, h1, hh⟩
+            · exact Or.inr (Or.inl ⟨h, h0, h1, hh⟩)
+            · exact Or.inr (Or.inr (Or.inl ⟨h, h0, hh⟩))
+        · exact ⟨.exp, rfl, hsc2.trans hsce, stops_final .exp r3 (Or.inr (Or.inr (Or.inr ⟨rfl, hnde⟩)))⟩
+
+
+/-- the value a number literal is converted to by the machine -/
+def numConv (lit : Bytes) : JV := (numScan .value {} lit).2.1.asNum.toJV
+
+theorem numStep_start (m : Mode) (hm : m = .value ∨ m = .comma) (n : Num) (b : UInt8) :
+    numStep m n b = numStep .value {} b := by
+  have hexp : expected m b = expected .value b ∨ (numStep m n b = none ∧ numStep .value {} b = none) := by
+    have := forall_mode_byte (fun m b => !(m == .comma) || (expected .comma b == expected .value b) ||
+        (expected .value b == .closeArray) || (expected .value b == .closeObject)) (by decide +kernel) .comma b
+    rcases hm with h | h
+    · subst h; exact Or.inl rfl
+    · subst h
+      simp only [beq_self_eq_true, Bool.not_true, Bool.false_or, Bool.or_eq_true, beq_iff_eq] at this
+      rcases this with (h | h) | h
+      · exact Or.inl h
+      · right
+        have hc : expected .comma b = .charErr := by
+          have := forall_mode_byte (fun m b => !(expected .value b == .closeArray) || (expected .comma b == .charErr)) (by decide +kernel) .comma b
+          simpa [h] using this
+        simp [numStep, h, hc]
+      · right
+        have hc : expected .comma b = .charErr := by
+          have := forall_mode_byte (fun m b => !(expected .value b == .closeObject) || (expected .comma b == .charErr)) (by decide +kernel) .comma b
+          simpa [h] using this
+        simp [numStep, h, hc]
+  rcases hexp with h | ⟨h1, h2⟩
+  · have hsrc := src_ok .value b
+    unfold numStep
+    rw [h]
+    cases hact : expected .value b <;> first
+      | rfl
+      | (exfalso; rw [hact] at hsrc; simp [srcModes] at hsrc)
+  · rw [h1, h2]
+
+theorem numScan_start (m : Mode) (hm : m = .value ∨ m = .comma) (n : Num) (b : UInt8) (t : Bytes)
+    (hb : ∃ p, numStep .value {} b = some p) :
+    numScan m n (b :: t) = numScan .value {} (b :: t) := by
+  obtain ⟨p, hp⟩ := hb
+  simp only [numScan, numStep_start m hm n b, hp]
+
 end OjgVerif.Json
